@@ -191,7 +191,7 @@ add({"name": "afsp_down", "file": "dfs/afsp.cc", "anchor": r"inline char down\(c
      "rules": [(r"static_cast<char>\(", "(char)(", 1), (r"static_cast<unsigned char>\(", "(unsigned char)(", 1), (r"\btolower\(", "verif_tolower(", 1)]})
 add({"name": "wildcard_char_to_ere", "file": "dfs/afsp.cc", "anchor": r"for \(auto w : full_wildcard\)",
      "sig": "static void wildcard_char_to_ere(char w, struct charvec *parts)",
-     "rules": [(r"parts\.push_back\(", "charvec_push(parts, ", 19), (r"\bup\(", "afsp_up(", 2), (r"\bdown\(", "afsp_down(", 2)]})
+     "rules": [(r"parts\.push_back\(", "charvec_push(parts, ", ">=10"), (r"\bup\(", "afsp_up(", ">=1"), (r"\bdown\(", "afsp_down(", ">=1")]})
 
 # ---- cmd_extract_files.cc / dfs_catalog.cc (C12): host file name construction ---------------------------
 add({"name": "byte_to_ascii7", "file": "dfs/stringutil.h", "anchor": r"inline char byte_to_ascii7\(DFS::byte b\)",
